@@ -192,8 +192,8 @@ CLAIMED['C15'] = {
             'value of that constructor application (existing or fresh). The static half (no accepted rule can make a non-constructor term defined in an enum type) is checked as black-box verdicts only: 8 programs that '
             'must be rejected, 5 neighbours that must be accepted, and a scan of the emitted enum API; the Datalog check itself is not under contract.',
     'design_ref': '§6 C15',
-    'note': 'Bounded stand-in, labelled exploration, never counted as proved. Two enum probes.',
-    'technique': 'bounded native execution of executable contracts of the generated enum API on emitted probe modules + must-reject/must-accept compiler verdicts (labelled bounded)',
+    'note': 'Bounded stand-in, labelled exploration, never counted as proved, plus one proof part: new_<enum>(value: <Enum>Case) is proved by Verus on the emitted text of the enum probes (part GEN-enum: returns the value of the constructor application named by the case, existing or fresh; invariant preserved) for all states and arguments. Two enum probes.',
+    'technique': 'bounded native execution of executable contracts of the generated enum API on emitted probe modules + must-reject/must-accept compiler verdicts (labelled bounded); Verus on the emitted new_<enum> (contract-based deductive verification, per probe program)',
 }
 CLAIMED['C19'] = {
     'category': 'exploration',
